@@ -307,3 +307,322 @@ Proof.
   - cbn [ty_size] in H. inversion H as [D]. destruct t0; try discriminate D; destruct (_ =? _)%nat; discriminate D.
   - cbn [ty_size] in H. inversion H as [D]. destruct t0; try discriminate D; destruct (_ =? _)%nat; discriminate D.
 Qed.
+
+Lemma conv_nonnull v t r : good v = true -> is_null v = false -> conv v t = COk r -> is_null r = false.
+Proof.
+  intros G N H. rewrite good_is_null in N by auto. unfold conv in H.
+  destruct v; try discriminate N; try (rewrite good_VMark in G; discriminate); try (rewrite good_VUnk in G; discriminate);
+    cbn [convert] in H;
+    (match type of H with (if ?c then _ else _) = _ => destruct c eqn:C end;
+     [ inversion H; subst; reflexivity | ]).
+  all: destruct t; try (inversion H; subst; reflexivity; fail).
+  all: match type of H with (if ?c then _ else _) = _ => destruct c; try discriminate end; cbn [negb] in H; try discriminate.
+  all: try (match type of H with context [all_ok ?l] =>
+         destruct (all_ok l) as [[vs|]|?] eqn:E; try discriminate;
+         try exact (False_ind _ (all_ok_inr _ _ _ E H)) end;
+       try (destruct (has_dyn _); try discriminate); inversion H; subst; reflexivity).
+  all: try (inversion H; subst; reflexivity; fail).
+  - destruct (str_to_num s); inversion H; reflexivity.
+  - repeat match type of H with (if ?c then _ else _) = _ => destruct c end; inversion H; reflexivity.
+Qed.
+
+(* ---- operators ---------------------------------------------------------------------- *)
+Definition boolres (o : ores) : Prop := forall r, o = OOk r -> exists x, r = VBool x.
+
+Lemma all_eq_bool (g : val -> val -> ores) (ps : list (val * val)) :
+  (forall p, In p ps -> boolres (g (fst p) (snd p))) ->
+  forall acc, boolres acc ->
+  boolres (fold_left (fun acc p =>
+          match acc with
+          | OOk (VBool true) =>
+              match g (fst p) (snd p) with
+              | OOk (VBool true) => OOk (VBool true)
+              | other => other
+              end
+          | other => other
+          end) ps acc).
+Proof.
+  induction ps as [|p ps IH]; intros G acc A; simpl; [exact A|].
+  apply IH. { intros; apply G; right; auto. }
+  destruct acc as [v| |]; try exact A. destruct v; try exact A. destruct b; try exact A.
+  pose proof (G p (or_introl eq_refl)) as Gp.
+  destruct (g (fst p) (snd p)) as [v| |]; try (intros r Hr; discriminate).
+  destruct v; try exact Gp. destruct b; try exact Gp.
+Qed.
+
+Local Opaque wholly_known has_dyn ty_eqb val_eqb.
+
+Lemma equals_good : forall fuel a b, good a = true -> good b = true -> boolres (equals fuel a b).
+Proof.
+  induction fuel as [|f IH]; intros a b Ga Gb; [intros r H; discriminate|].
+  assert (forall la lb, goods la = true -> goods lb = true ->
+          forall p, In p (combine la lb) -> boolres (equals f (fst p) (snd p))) as HL.
+  { intros la lb G1 G2 p Hin. apply In_combine_snd in Hin as [I1 I2]. apply IH; [eapply goods_In; [exact G1|exact I1] | eapply goods_In; [exact G2|exact I2]]. }
+  assert (forall la lb, goodkvs la = true -> goodkvs lb = true ->
+          forall p, In p (combine (map snd la) (map snd lb)) -> boolres (equals f (fst p) (snd p))) as HK.
+  { intros la lb G1 G2 p Hin. apply In_combine_snd in Hin as [I1 I2].
+    apply in_map_iff in I1 as [x [E1 I1]]. apply in_map_iff in I2 as [y [E2 I2]].
+    rewrite <- E1, <- E2. apply IH; [eapply goodkvs_In; [exact G1|exact I1] | eapply goodkvs_In; [exact G2|exact I2]]. }
+  destruct a; try (rewrite good_VMark in Ga; discriminate); try (rewrite good_VUnk in Ga; discriminate);
+  destruct b; try (rewrite good_VMark in Gb; discriminate); try (rewrite good_VUnk in Gb; discriminate);
+  cbn [equals]; try (intros r H; inversion H; eauto; fail).
+  all: rewrite ?good_VList, ?good_VSet, ?good_VTuple, ?good_VMap, ?good_VObj in *.
+  all: repeat match goal with |- boolres (if ?c then _ else _) => destruct c end;
+       try (intros r H; inversion H; eauto; fail).
+  all: try (apply all_eq_bool; [eauto | intros r H; inversion H; eauto]).
+Qed.
+
+Local Opaque num_add num_mul num_div num_mod num_neg num_ltb good.
+
+Lemma lift_marks_nil r : lift_marks [] r = r.
+Proof. destruct r; reflexivity. Qed.
+
+Lemma call_binop_eq a b : call_binop OpEq a b =
+  lift_marks (marks_union (deep_marks a) (deep_marks b))
+    (equals (S (val_size (unmark_deep a) + val_size (unmark_deep b))) (unmark_deep a) (unmark_deep b)).
+Proof. reflexivity. Qed.
+Lemma call_binop_ne a b : call_binop OpNe a b =
+  lift_marks (marks_union (deep_marks a) (deep_marks b))
+    (let r := equals (S (val_size (unmark_deep a) + val_size (unmark_deep b))) (unmark_deep a) (unmark_deep b) in
+     match OpNe, r with
+     | OpNe, OOk (VBool x) => OOk (VBool (negb x)) | _, _ => r end).
+Proof. reflexivity. Qed.
+
+Lemma binop_good_eq op a b r :
+  good a = true -> good b = true -> binop_param op = TDyn ->
+  call_binop op a b = OOk r -> exists x, r = VBool x.
+Proof.
+  intros Ga Gb D H.
+  destruct (good_deep a Ga) as [Ua Ma]. destruct (good_deep b Gb) as [Ub Mb].
+  destruct op; try discriminate D.
+  + rewrite call_binop_eq, Ua, Ub, Ma, Mb in H.
+    change (marks_union [] []) with (@nil Z) in H; rewrite lift_marks_nil in H.
+    exact (equals_good _ _ _ Ga Gb _ H).
+  + rewrite call_binop_ne, Ua, Ub, Ma, Mb in H.
+    change (marks_union [] []) with (@nil Z) in H; rewrite lift_marks_nil in H.
+    cbv zeta in H.
+    destruct (equals _ a b) as [v| |] eqn:E; try discriminate.
+    destruct (equals_good _ _ _ Ga Gb _ E) as [x0 ->]. inversion H. eauto.
+Qed.
+
+Lemma binop_good_bool op a b r :
+  ((exists x, a = VBool x) \/ a = VNull TBool) -> ((exists x, b = VBool x) \/ b = VNull TBool) ->
+  binop_param op = TBool -> call_binop op a b = OOk r -> exists x, r = VBool x.
+Proof.
+  intros [[xa ->]| ->] [[xb ->]| ->] P H; destruct op; try discriminate P; cbn [call_binop] in H;
+    try discriminate H; inversion H; eauto.
+Qed.
+
+Lemma binop_good_num op a b r :
+  ((exists x, a = VNum x) \/ a = VNull TNum) -> ((exists x, b = VNum x) \/ b = VNull TNum) ->
+  binop_param op = TNum -> call_binop op a b = OOk r -> (exists x, r = VBool x) \/ (exists n, r = VNum n).
+Proof.
+  intros [[xa ->]| ->] [[xb ->]| ->] P H; destruct op; try discriminate P; cbn [call_binop] in H;
+    try discriminate H; try (inversion H; eauto; fail);
+    match type of H with match ?o with _ => _ end = _ => destruct o; inversion H; eauto end.
+Qed.
+
+Lemma binop_good op x y a b r :
+  good x = true -> good y = true ->
+  conv x (binop_param op) = COk a -> conv y (binop_param op) = COk b ->
+  call_binop op a b = OOk r -> good r = true.
+Proof.
+  intros Gx Gy Ca Cb H.
+  pose proof (conv_good _ _ _ Gx Ca) as Ga. pose proof (conv_good _ _ _ Gy Cb) as Gb.
+  destruct (binop_param op) eqn:P; try (destruct op; discriminate P).
+  - assert (is_prim TNum = true) as PP by reflexivity.
+    pose proof (conv_prim_type _ _ _ Gx Ca PP) as Ta. pose proof (conv_prim_type _ _ _ Gy Cb PP) as Tb.
+    destruct (binop_good_num op a b r (good_num_shape _ Ga Ta) (good_num_shape _ Gb Tb) P H) as [[z ->]|[z ->]]; reflexivity.
+  - assert (is_prim TBool = true) as PP by reflexivity.
+    pose proof (conv_prim_type _ _ _ Gx Ca PP) as Ta. pose proof (conv_prim_type _ _ _ Gy Cb PP) as Tb.
+    destruct (binop_good_bool op a b r (good_bool_shape _ Ga Ta) (good_bool_shape _ Gb Tb) P H) as [z ->]; reflexivity.
+  - destruct (binop_good_eq op a b r Ga Gb P H) as [z ->]. reflexivity.
+Qed.
+
+Lemma unop_good op x a r :
+  good x = true -> conv x (unop_param op) = COk a -> call_unop op a = OOk r -> good r = true.
+Proof.
+  intros Gx Ca H. pose proof (conv_good _ _ _ Gx Ca) as Ga.
+  assert (is_prim (unop_param op) = true) as P by (destruct op; reflexivity).
+  pose proof (conv_prim_type _ _ _ Gx Ca P) as Ta.
+  destruct op; simpl in Ta.
+  - destruct (good_bool_shape _ Ga Ta) as [[xa ->]| ->]; simpl in H; inversion H; reflexivity.
+  - destruct (good_num_shape _ Ga Ta) as [[xa ->]| ->]; cbn [call_unop unmark_deep deep_marks lift_marks with_marks] in H; inversion H; reflexivity.
+Qed.
+
+(* the implementation's unmark / call / re-mark sequence on good operands is the plain call *)
+Lemma binop_shape op x a : good x = true -> conv x (binop_param op) = COk a ->
+  binop_param op = TBool -> (exists b, a = VBool b) \/ a = VNull TBool.
+Proof.
+  intros G C P. apply good_bool_shape. eapply conv_good; eauto.
+  rewrite <- P. eapply conv_prim_type; eauto. rewrite P. reflexivity.
+Qed.
+
+(* ---- hcl.Index / hcl.GetAttr against the specification's operators ------------------------ *)
+Lemma conv_null_shape t w r : conv (VNull t) w = COk r -> exists t', r = VNull t'.
+Proof.
+  unfold conv. cbn [val_size convert]. intro H.
+  destruct (ty_eqb (type_of (VNull t)) w); [inversion H; eauto|].
+  destruct w; try (inversion H; eauto; fail);
+  destruct (negb _); try discriminate; inversion H; eauto.
+Qed.
+
+Lemma nth_opt_lt {A} (l : list A) i : (i <? length l)%nat = true -> exists v, nth_opt l i = Some v.
+Proof.
+  revert i. induction l as [|x r IH]; intros [|i] H; simpl in *; try discriminate; eauto.
+Qed.
+Lemma nth_opt_ge {A} (l : list A) i : (i <? length l)%nat = false -> nth_opt l i = None.
+Proof.
+  revert i. induction l as [|x r IH]; intros [|i] H; simpl in *; try discriminate; eauto.
+Qed.
+Lemma assoc_get_map_ty (kvs : list (list Z * val)) k :
+  assoc_get k (map (fun p => (fst p, type_of (snd p))) kvs) =
+  match assoc_get k kvs with Some v => Some (type_of v) | None => None end.
+Proof.
+  induction kvs as [|[k' v] r IH]; simpl; [reflexivity|]. destruct (str_eqb k k'); auto.
+Qed.
+
+Local Opaque conv.
+
+Definition refines1 (r : val * list diag) (s : sres) : Prop :=
+  has_unsupported (snd r) = false ->
+  result_of r = s /\ (has_errors (snd r) = false -> good (fst r) = true).
+
+Lemma refines1_err s f : s <> S_Unsupported -> refines1 (dyn_val, [derr s f]) SErr.
+Proof. intros _ _. split; [reflexivity|discriminate]. Qed.
+Lemma refines1_unsup s : refines1 (dyn_val, [dunsupported]) s.
+Proof. intro H. discriminate. Qed.
+Lemma refines1_ok v : good v = true -> refines1 (v, []) (SOk v).
+Proof. intros G _. split; [reflexivity|auto]. Qed.
+
+Lemma index_refines coll key : good coll = true -> good key = true -> refines1 (index coll key) (spec_index coll key).
+Proof.
+  intros Gc Gk. unfold index.
+  rewrite (good_is_null coll Gc).
+  destruct coll; try (rewrite good_VMark in Gc; discriminate); try (rewrite good_VUnk in Gc; discriminate);
+    try (apply refines1_err; discriminate).
+  all: destruct (is_null key) eqn:NK.
+  all: try (rewrite good_is_null in NK by auto; destruct key; try discriminate NK;
+            match goal with |- refines1 _ ?s =>
+              assert (s = SErr) as -> by
+                (simpl; unfold to_type, to_string;
+                 match goal with |- context [conv (VNull ?t) ?w] =>
+                   destruct (conv (VNull t) w) eqn:C; try reflexivity;
+                   destruct (conv_null_shape _ _ _ C) as [t' ->]; reflexivity end || reflexivity) end;
+            apply refines1_err; discriminate).
+  all: rewrite (good_not_dyn key Gk NK); cbn [type_of ty_eqb orb].
+  all: try (apply refines1_err; discriminate).
+  - (* list *)
+    cbn [spec_index]. unfold to_type. destruct (conv key TNum) as [k'| |] eqn:C;
+      [| apply refines1_err; discriminate | apply refines1_unsup].
+    pose proof (conv_good _ _ _ Gk C) as Gk'. cbn [unmark]. rewrite (good_unmark k' Gk').
+    destruct k'; try (rewrite good_VMark in Gk'; discriminate); try (rewrite good_VUnk in Gk'; discriminate);
+      cbn [has_index type_of]; try (apply refines1_err; discriminate).
+    cbn [index_known]. destruct (index_of_num n) as [i|] eqn:I; [|apply refines1_err; discriminate].
+    destruct (i <? length l)%nat eqn:L.
+    + destruct (nth_opt_lt l i L) as [v Hv]. rewrite Hv. cbn [with_marks]. apply refines1_ok.
+      rewrite good_VList in Gc. eapply goods_nth; eauto.
+    + rewrite (nth_opt_ge l i L). apply refines1_err; discriminate.
+  - (* map *)
+    cbn [spec_index]. unfold to_string. destruct (conv key TStr) as [k'| |] eqn:C;
+      [| apply refines1_err; discriminate | apply refines1_unsup].
+    pose proof (conv_good _ _ _ Gk C) as Gk'. cbn [unmark]. rewrite (good_unmark k' Gk').
+    destruct k'; try (rewrite good_VMark in Gk'; discriminate); try (rewrite good_VUnk in Gk'; discriminate);
+      cbn [has_index type_of]; try (apply refines1_err; discriminate).
+    cbn [index_known]. destruct (assoc_get s l) as [v|] eqn:A; [|apply refines1_err; discriminate].
+    cbn [with_marks]. apply refines1_ok. rewrite good_VMap in Gc. eapply goodkvs_get; eauto.
+  - (* tuple *)
+    cbn [spec_index]. unfold to_type. destruct (conv key TNum) as [k'| |] eqn:C;
+      [| apply refines1_err; discriminate | apply refines1_unsup].
+    pose proof (conv_good _ _ _ Gk C) as Gk'. cbn [unmark]. rewrite (good_unmark k' Gk').
+    destruct k'; try (rewrite good_VMark in Gk'; discriminate); try (rewrite good_VUnk in Gk'; discriminate);
+      cbn [has_index type_of]; try (apply refines1_err; discriminate).
+    cbn [index_known]. destruct (index_of_num n) as [i|] eqn:I; [|apply refines1_err; discriminate].
+    rewrite map_length. destruct (i <? length l)%nat eqn:L.
+    + destruct (nth_opt_lt l i L) as [v Hv]. rewrite Hv. cbn [with_marks]. apply refines1_ok.
+      rewrite good_VTuple in Gc. eapply goods_nth; eauto.
+    + rewrite (nth_opt_ge l i L). apply refines1_err; discriminate.
+  - (* object *)
+    cbn [spec_index]. unfold to_string. destruct (conv key TStr) as [k'| |] eqn:C;
+      [| apply refines1_err; discriminate | apply refines1_unsup].
+    pose proof (conv_good _ _ _ Gk C) as Gk'. rewrite (good_is_known k' Gk'). cbn [negb].
+    rewrite (good_unmark k' Gk'). cbn [fst].
+    destruct k'; try (rewrite good_VMark in Gk'; discriminate); try (rewrite good_VUnk in Gk'; discriminate);
+      try apply refines1_unsup.
+    rewrite assoc_get_map_ty. destruct (assoc_get s l) as [v|] eqn:A; [|apply refines1_err; discriminate].
+    cbn [is_known unmark fst negb]. rewrite A. cbn [with_marks]. apply refines1_ok.
+    rewrite good_VObj in Gc. eapply goodkvs_get; eauto.
+Qed.
+
+Definition is_mapval (v : val) : bool := match v with VMap _ _ => true | _ => false end.
+
+Lemma get_attr_refines obj name : good obj = true -> is_mapval obj = false ->
+  refines1 (get_attr obj name) (spec_getattr obj name).
+Proof.
+  intros G NM. unfold get_attr. rewrite (good_is_null obj G).
+  destruct obj; try (rewrite good_VMark in G; discriminate); try (rewrite good_VUnk in G; discriminate);
+    try discriminate NM; cbn [type_of spec_getattr]; try (apply refines1_err; discriminate).
+  - destruct t; try (apply refines1_err; discriminate).
+  - destruct t; try (apply refines1_err; discriminate).
+  - rewrite assoc_get_map_ty. destruct (assoc_get name l) as [v|] eqn:A; [|apply refines1_err; discriminate].
+    cbn [is_known unmark fst negb]. rewrite A. cbn [with_marks]. apply refines1_ok.
+    rewrite good_VObj in G. eapply goodkvs_get; eauto.
+Qed.
+
+(* literal values embedded in traversal steps *)
+Definition step_ok (s : step) : bool := match s with SAttr _ => true | SIndex k => good k end.
+
+(* side condition (deviation "attribute access on a map"): no SAttr step is applied to a map value *)
+Fixpoint steps_dev_free (steps : list step) (v : val) : bool :=
+  match steps with
+  | [] => true
+  | SAttr n :: r => negb (is_mapval v) &&
+                    match spec_getattr v n with SOk v' => steps_dev_free r v' | SErr => true end
+  | SIndex k :: r => match spec_index v k with SOk v' => steps_dev_free r v' | SErr => true end
+  end.
+
+Lemma traverse_rel_acc steps : forall v acc, exists ds', snd (traverse_rel steps v acc) = acc ++ ds'.
+Proof.
+  induction steps as [|s r IH]; intros v acc; simpl.
+  - exists []. rewrite app_nil_r. reflexivity.
+  - destruct (match s with SAttr n => get_attr v n | SIndex k => index v k end) as [v' ds].
+    destruct (has_errors ds).
+    + exists ds. reflexivity.
+    + destruct (IH v' (acc ++ ds)) as [ds' E]. exists (ds ++ ds'). rewrite E, app_assoc. reflexivity.
+Qed.
+
+Lemma traverse_rel_refines steps : forall v acc,
+  good v = true -> forallb step_ok steps = true -> steps_dev_free steps v = true ->
+  has_errors acc = false ->
+  refines1 (traverse_rel steps v acc) (spec_steps steps v).
+Proof.
+  induction steps as [|s r IH]; intros v acc G SO DF EA.
+  - simpl. intros _. unfold result_of. simpl. rewrite EA. auto.
+  - simpl in SO. apply andb_true_iff in SO as [SO1 SO2].
+    assert (refines1 (match s with SAttr n => get_attr v n | SIndex k => index v k end)
+                     (match s with SAttr n => spec_getattr v n | SIndex k => spec_index v k end)) as R1.
+    { destruct s; simpl in DF.
+      - apply andb_true_iff in DF as [D1 _]. apply get_attr_refines; auto. destruct (is_mapval v); auto; discriminate.
+      - apply index_refines; auto. }
+    cbn [traverse_rel].
+    destruct (match s with SAttr n => get_attr v n | SIndex k => index v k end) as [v' ds] eqn:E1.
+    intros HU.
+    assert (has_unsupported ds = false) as HUds.
+    { destruct (has_errors ds); simpl in HU.
+      - rewrite has_unsupported_app in HU. apply orb_false_iff in HU. tauto.
+      - destruct (traverse_rel_acc r v' (acc ++ ds)) as [ds' E]. rewrite E in HU.
+        rewrite !has_unsupported_app in HU. apply orb_false_iff in HU as [HU _]. apply orb_false_iff in HU. tauto. }
+    destruct (R1 HUds) as [R1a R1b]. unfold result_of in R1a. simpl in R1a, R1b.
+    destruct (has_errors ds) eqn:ED.
+    + split.
+      * unfold result_of. simpl. rewrite has_errors_app, ED, orb_true_r.
+        destruct s; cbn [spec_steps]; rewrite <- R1a; reflexivity.
+      * simpl. rewrite has_errors_app, ED, orb_true_r. discriminate.
+    + assert (spec_steps (s :: r) v = spec_steps r v') as ->.
+      { destruct s; cbn [spec_steps]; rewrite <- R1a; reflexivity. }
+      apply IH; auto.
+      * destruct s; simpl in DF; rewrite <- R1a in DF.
+        -- apply andb_true_iff in DF. tauto.
+        -- exact DF.
+      * rewrite has_errors_app, EA, ED. reflexivity.
+Qed.
